@@ -47,6 +47,34 @@ class HarnessError(Exception):
     pass
 
 
+class CallTimeout(BaseException):
+    """A single PGPy call exceeded the watchdog (e.g. a loop over a corrupted 32-bit length)."""
+
+
+class watchdog(object):
+    """with watchdog(20): pgpy_call()  -- raises CallTimeout inside the call.  Safety net only:
+    generators avoid inputs whose cost depends on a corrupted length, so that verdicts never
+    depend on machine speed."""
+
+    def __init__(self, seconds=20):
+        self.seconds = seconds
+
+    def _fire(self, signum, frame):
+        raise CallTimeout()
+
+    def __enter__(self):
+        import signal
+        self._old = signal.signal(signal.SIGALRM, self._fire)
+        signal.setitimer(signal.ITIMER_REAL, self.seconds)
+        return self
+
+    def __exit__(self, *exc):
+        import signal
+        signal.setitimer(signal.ITIMER_REAL, 0)
+        signal.signal(signal.SIGALRM, self._old)
+        return False
+
+
 class Ctx(object):
     def __init__(self, prop, run_seed, known=(), collect_all=False):
         self.prop = prop
